@@ -443,6 +443,8 @@ class UTPM(Ring, RawAlgorithmsMixIn):
             return self.__class__(y_data)
 
     def __rpow__(self,r):
+        # evaluate log(r) in the precision of the result (r may be a float32 scalar)
+        r = numpy.asarray(r, dtype=numpy.result_type(r, self.data.dtype))
         return UTPM.exp(numpy.log(r)*self)
 
 
